@@ -301,14 +301,10 @@ func (fc *FnCtx) chanRecv(st *State, reach string, ch Val, got Val, cond string)
 	fc.usedContracts[con.Key] = true
 	fc.assumption("channel invariant assumed at receive (checked at every send in verified code): " + con.Key)
 	vars := bindParams(con, nil, []Val{ch, got})
-	for _, cl := range con.Requires {
-		env := fc.specEnv(st, nil, vars, con.Pkg, nil, cl.Text)
-		fc.sc.assume(tImp(tAnd(reach, cond), env.evalBool(cl.Expr)))
-	}
+	// tokens first, then the invariant (which may mention the token)
 	if cond == "true" {
 		fc.produce(st, con, vars, con.Produces)
 	} else {
-		// conditional production: token is 1 if this case fired
 		for _, it := range con.Produces {
 			i := strings.Index(it, "(")
 			g := fc.eng.ghosts[strings.TrimSpace(it[:i])]
@@ -319,5 +315,9 @@ func (fc *FnCtx) chanRecv(st *State, reach string, ch Val, got Val, cond string)
 			cur := fc.loadLoc(st, l)
 			fc.storeLoc(st, l, tIte(cond, "1", cur))
 		}
+	}
+	for _, cl := range con.Requires {
+		env := fc.specEnv(st, nil, vars, con.Pkg, nil, cl.Text)
+		fc.sc.assume(tImp(tAnd(reach, cond), env.evalBool(cl.Expr)))
 	}
 }
